@@ -12,6 +12,12 @@ claim("C16",
       "whitelist of writers of the tier index. Partial: reply parsing, cross-goroutine cancellation are outside.",
       "DESIGN.md §4 C16")
 
+claim("C15",
+      "Proof that the UDP announce request carries the torrent's info-hash, peer id, port and counters unchanged for "
+      "every input, and that the wire structs match the BEP 15 tables. Partial: HTTP query, event discipline and "
+      "interval bounds are added as their contracts discharge (see evidence for the current list).",
+      "DESIGN.md §4 C15")
+
 na("C10", "liveness/progress over unbounded schedules of several goroutines: a function contract cannot state fairness or progress measures (DESIGN.md §4 C10)")
 na("C20", "data races and lock-ups quantify over schedules; the contracts are sequential and assume the single-owner discipline C20 asks to prove (DESIGN.md §4 C20)")
 for p in ["C01", "C02", "C04", "C05", "C06", "C07", "C08", "C09", "C11", "C12", "C13", "C14", "C15", "C17", "C18", "C19"]:
